@@ -326,6 +326,15 @@ def degenerate_values(rec):
         want[:, 1, 1] += cov @ b[1]
         if not np.allclose(vt, want):
             return 'effects %s, covariates %s: transformed parameters %s, documented linear shift gives %s' % (beta_kind, cov_kind, vt.tolist(), want.tolist())
+        # the documented matrix layout of the effects, (n_selected, n_cov): the same transform (and the same sensitivities) as the flat vector
+        try:
+            vt2 = np.asarray(cm.compute_population_parameters(beta.reshape(n_sel, n_cov), pop, cov))
+            ds1 = cm.compute_sensitivities(beta, pop, cov, np.ones((n_ids, n_pop, n_dim)) * (1.0 + 0.1 * np.arange(n_ids))[:, None, None])
+            ds2 = cm.compute_sensitivities(beta.reshape(n_sel, n_cov), pop, cov, np.ones((n_ids, n_pop, n_dim)) * (1.0 + 0.1 * np.arange(n_ids))[:, None, None])
+        except Exception as ex:
+            return 'effects %s, covariates %s (n_cov = %d): the (n_selected, n_cov) layout of the effects raises %r' % (beta_kind, cov_kind, n_cov, ex)
+        if vt2.shape != vt.shape or not np.allclose(vt2, want) or not all(np.allclose(np.asarray(u_), np.asarray(v_)) for u_, v_ in zip(ds1, ds2)):
+            return 'effects %s, covariates %s (n_cov = %d): effects given as a (n_selected, n_cov) matrix give %s, the documented linear shift %s' % (beta_kind, cov_kind, n_cov, vt2.tolist(), want.tolist())
         # through the population model: every sampled individual is a draw, pooled individual parameters exist for every individual
         cpm = real.CovariatePopulationModel(real.GaussianModel(), real.LinearCovariateModel(n_cov=n_cov))
         par = np.concatenate([[5.0, 0.01], np.tile(beta[:n_cov] if len(beta) >= n_cov else beta, 2)[:2 * n_cov]])
